@@ -38,7 +38,7 @@ class C18(Prop):
             "and, in the thorough tier, scripts around the 16-bit limits (bodies, jumps, constant pools, array / argument / hash counts near "
             "65535) - is prepared with and without the optimizer; the main body and every function body AS THE GO MACHINE WILL RUN THEM "
             "are handed to the Coq verifier, which walks all control-flow paths whether or not an input reaches them. A rejected "
-            "program is a violation unless it is a value-less construct in operand position (known finding, decided syntactically). "
+            "program is a violation; scripts with a value-less construct in operand position must be refused by Prepare. "
             "The run itself must never end in an internal error for a program the verifier accepted. non-trivial = program has a jump or a call")
 
     def cases(self, rng, tier):
@@ -50,7 +50,10 @@ class C18(Prop):
         for s in BOUNDARY:
             add(s, "boundary")
         for s in VALUELESS:
-            add(s, "valueless")
+            # a construct that leaves no value, used where a value is needed: Prepare must refuse it
+            for mode in ("opt", "noopt"):
+                f = gen.struct_case(rng, s, ["prepare:" + mode, "exec:0"])
+                out.append(Case("run", f, "valueless-" + mode, expect={"o2.prep": "error"}, note=s))
         n = 8000 if tier == "thorough" else 600
         for _ in range(n):
             g = gen.Gen(rng, max_depth=rng.choice([1, 2, 3]), illtyped=0.05, use_sqrt=rng.random() < 0.2)
@@ -74,7 +77,7 @@ class C18(Prop):
         return klass == "valueless-operand" and "valueless" in case.tags
 
     def judge(self, case, go, model):
-        return []
+        return Prop.judge(self, case, go, model)
 
     def extra_checks(self, tier, st, rng=None, cases=None, go=None):
         lines, meta = [], []
